@@ -53,6 +53,41 @@ CLAIMS['C12'] = dict(
     ref='4.12',
 )
 
+CLAIMS['C05'] = dict(
+    technique="Lean 4 proof (induction over the selected-record list with the invariant 'file = prefill overwritten by the records so far'; fold invariants for MeasureFile; table obligations on the regenerated lane table) + model/impl correspondence on generated code files + executable spec on every real output",
+    text='Proved for every record list and window (lane ALL): C05_bytes/C05_image/C05_length (after OpenTarget+ProcessFile the file is header + (stop-start+1)*MaxGran bytes and byte p is the byte of the last selected record covering p, else the fill value), C05_autorange (automatic bounds = lowest start / highest last address, MaxGran = largest granularity), C05_checksum (-s: image byte sum = 0 mod 256, other bytes unchanged), C05_header (-S: n-byte little/big endian entry address), C05_lane_table + C05_lane_predicate (the regenerated (SizeDiv,ANDMask,ANDEq) triples are the documented address classes for every byte address), C05_lane_count_aligned, C05_image_fast (executable spec image = declarative one). Correspondence: real p2bin vs Model/P2Bin.lean byte-for-byte (output file, exit status, number of overlap warnings, printed checksum) on ~4.8k (quick) / ~67k (thorough) generated runs incl. the exhaustive lane x record-offset mod 4 x window-offset mod 4 x gran 1/2/4 grid; Spec/P2Bin.lean is evaluated on every real output.',
+    note=TB + "Modelled, not verified: p2bin.c MeasureFile/OpenTarget/ProcessFile/CloseTarget/CMD_ByteMode, chunks.c AddChunk/Overlap/SetChunk, toolutils.c FilterOK as Model/P2Bin.lean. NOT proved, only differentially tested: byte placement under -m lanes other than ALL (false on the current tree off lane-period boundaries: C05_finding_lane), the overlap warning (AddChunk; C05_finding_overlap_missed is the proved negation of 'iff'), -f/-segment selection and (offset) handling (C05_finding_filter), the composition of the proved parts into the whole run, command-line parsing, the 4096-byte block loop (modelled as one pass). Five known findings (known_findings.json) are recognised by signature only when the code-following model reproduces the real output exactly; model quirk flags are probed on the real binary each run. Outside the model: relocation records, Gran=0 and -s on an empty image (C03), stdout texts except the checksum value. 'Byte sum zero' is read as the sum over the image after the -S header.",
+    ref='4.5',
+)
+
+CLAIMS['C06'] = dict(
+    technique='Lean 4 proof (hex print/parse round trip, checksum algebra mod 2^8/2^16, line-splitting induction over ErgLen, record-grammar folds) + byte-for-byte model/impl correspondence on real p2hex output + independent Lean decoders (public format definitions) run on every real output',
+    text="Proved for all addresses/data/line lengths in range (no size bound): C06_moto_line/_group/_term/_file/C06_moto (S0 + S1/S2/S3 lines for any -l + S9/S8/S7 decode, with valid counts and checksums, to exactly the record's bytes at ErgStart.. and the entry address, stated on the model's emitGroups+terminators for one selected record, +5), C06_intel_line/_group/_file (8-bit Intel HEX incl. EOF record), C06_mos_line_partial (every MOS line whose incoming ChkSum is 0), C06_hex_roundtrip, C06_split_unlines; proved negations C06_finding_mos_running_sum, C06_finding_mos_last_record, C06_finding_tek_byte_sums, C06_finding_moto_count_overflow with concrete witnesses. Intel16/Intel32 (extended address / bank records, 03/05 entry records), S5 count, -s, Tektronix, Atmel generic, C array, -r/-a/-R/-segment clipping, -m 1..3, gran 2/4 and the default format per family (table regenerated from headids.c) have model + decoder and are differentially tested only (model = real text byte for byte; decoder + expected image on the real text).",
+    note=TB + "Eight known findings on the unchanged tree (known_findings.json, signatures by input class): MOS running checksum, MOS constant last record, Tektronix byte sums (my reading of the public definition: digit sums; fairly sure), S-record count byte overflow for -l > 252, range checks/record type ignore -R, Intel16 segment truncation above 1 MiB, Intel16 group > 64 KiB wraps, Intel32 bank split counts granules instead of bytes (Gran 2/4; found by the thorough tier). The three MOS/Tek behaviours are flags of the model set by a probe of the real binary, so the check keeps passing after a repair. Outside the model: TI-DSK, Mico8, -f, several source files / name(offset), -d, -k, overlap warnings, ChkSum width taken from reading (Word) not regenerated. S5 is judged as 'number of data records to follow' (AS manual), Intel -i 1/2 end lines only on request, missing Tektronix termination block tolerated, word-addressed targets are generated only inside the first 16K words (plus relocation).",
+    ref='4.6',
+)
+
+CLAIMS['C07'] = dict(
+    technique='Lean 4 proof (induction over source lists and item lists on the byte-level models of toolutils.c/pbind.c/plist.c; header and line-field round trips; totals as a fold) + model/impl correspondence on harness-written code files',
+    text="For every list of source files, every item list in any mix of short ($01..$7f) and long ($81) headers, entry records, payloads 0..65535 and every filter state: C07_header_roundtrip (ReadRecordHeader reads back what WriteRecordHeader chose), C07_reader_mixed_forms, C07_conserve (status 0, target = short-preferring serialisation of the filtered concatenation, documented reader returns exactly those items, printed byte counts = sums of copied lengths; hypothesis ChkHarmless: errno clean or ChkIO only after failed writes) and C07_conserve_generated_nonquiet (no such hypothesis for non-quiet runs of the tree as extracted); C07_plist_lines (stdout = header, exactly one line per item, creator, totals), C07_plist_line_fields / C07_plist_entry_line (line read back by words = family, segment, start, length, start+len/gran-1), C07_plist_totals (Sums[z] = fold of record lengths mod 2^32). Negations proved for the three defects of the pinned tree (C07_finding_stale_errno, C07_finding_empty_creator, C07_finding_plist_total_u). Real pbind (quiet/non-quiet, clean/stale errno, -f/+f lists) and plist -q (1..3 files, also on pbind's targets) are compared byte-for-byte with the models and checked by the Lean spec on every run.",
+    note=TB + "Generated per run: Granularity table, FileID, BufferSize, Creator, SegNames, FindFamilyById table, plist messages (compiled dumpers that #include pbind.c/plist.c), behaviour probes for WriteRecordHeader's ChkIO-on-success branches and ProcessFile's length check, plist totals format literal (clang AST) - so the model follows a repaired tree and the KNOWN-FINDING lines disappear. Only differentially tested, not proved: CMD_FilterList's array semantics (set semantics computed by the harness), SkipRecord on relocation records ($82-$85, > $85), multi-file plist output, the decimal rendering of totals (read back concretely in C07_finding_plist_total_u only), option parsing/number syntax, file-name suffix handling. Outside the model (result `stuck`): reads past end of file (truncated files: pbind/plist then loop on stale variables - C03), family id 0 (WriteRecordHeader would write it as the $00 end record), segment numbers >= SegCount, granularity 0, unknown-family lines are compared with the model only (plist prints the record *header* `???=81`, not the family id). errno at OpenTarget is an environment parameter of the model: ENOENT unless the *.msg catalogues lie in the current directory (measured with strace).",
+    ref='4.7',
+)
+
+CLAIMS['C08'] = dict(
+    technique='Lean 4 proof (structural induction over formulas: scan-frame invariant for the split rule; table obligations by decide over the regenerated Operators[]; BitVec/Int lemmas for operator bodies; square-and-multiply by induction) + model/impl correspondence on rendered formulas and literal notations',
+    text="C08_parse: for every formula (any depth; unary/dyadic operators; calls with 1-3 arguments) and every operator semantics the model of EvalStrExpression (split scan with LKlamm/RKlamm and the per-position candidate loop over the regenerated Operators[], monadic-minus rule, operand count, bracket stripping, QuotPos argument splitting) evaluates the token list of the minimally parenthesised rendering to the structural fold of the formula. C08_table_ranks/_rows/_longest_match/_functions (decide over the generated tables): priorities are a strictly monotone image of the manual's ranks, longest-match condition of the candidate loop, dyadic flags, documented functions present. C08_intops_*: + - * & | ! && || !! comparisons, sign/complement equal the documented value on all of 2^64 x 2^64; / and # everywhere except the UB point -2^63/-1 (explicit); shifts for counts 0..63 (UB outside, explicit); integer ^ = the power for every base and every exponent >= 0. C08_bitfuncs_*: BITCNT, LASTBIT, ABS, SGN equal their bit-level/Int specification for every 64-bit argument, FIRSTBIT for the repaired loop (quirk off; _partial: false on the pinned tree for arguments = 1 mod 4). C08_finding_*: proved negations for six defects of the pinned tree.",
+    note=TB + "Token level: the theorem is about evalToks on toks f; that tokenising the rendered text gives toks f (longest match on characters, ConstIntVal/ConstFloatVal of literal texts) is checked by the driver for every generated case (field lex) and by the literal sweep, not proved. Differentially tested only: operator bodies on floats and strings (Lean Float is opaque; 1e-9 tolerance), the pinned FIRSTBIT loop, BITPOS/SingleBit, TOUPPER/TOLOWER, the string functions and >< (loop models compared with bit-level specs on boundary/random arguments; for >< and BITPOS only the negations at the findings are proved), TryConvert type matching, ConstIntVal for 16 notations x RADIX 2..36 x RELAXED/INTSYNTAX on three targets (model and a spec written from the manual's notation table vs asl). Outside the model: libm transcendental functions, symbols/relocations, escapes in string constants, \\{...} nesting. The model carries five quirk flags calibrated by probing the real binary each run so that it keeps following the code after a repair; the SPEC decides violations. 11 known findings (signatures in known_findings.json) are reproduced every run; 'shr-negative-left' and 'shift-count-out-of-range' depend on reading 'log. shift' as logical shift.",
+    ref='4.8',
+)
+
+CLAIMS['C10'] = dict(
+    technique='Lean 4 proof (refinement of a transcription of asmallg.c/as.c WriteCode to an abstract address machine written from the manual, induction over statement lists) + model/impl and spec/impl correspondence on real asl runs (two targets, byte and word granular)',
+    text="C10_refine_partial: for EVERY statement list of ORG/RORG/ALIGN/DS/data/SEGMENT/CPU/PHASE/DEPHASE(nested)/SAVE/RESTORE/LISTING/labels outside structure bodies that the manual-derived machine accepts, the model of the C code reports no error, ends in a related state (per-segment counters, phase-offset stacks, save stack, CPU, segment, listing flag) and defines exactly the same label values (load address + active phase offset, mod 2^64); C10_refine_step_partial adds the rejecting direction (address outside the segment, RESTORE on an empty stack, unknown segment, ALIGN 0 => error/crash in the model). Corollaries proved for all states: C10_segments_isolated (PHASE/ORG do not leak), C10_label_value, C10_dephase_restores (incl. empty stack), C10_save_restore, C10_align (next multiple under the explicit Word/LongInt width hypotheses), C10_struct_field / C10_struct_end (single-level STRUCT/UNION: field = offset, 0 in unions, no code, LEN = total/max), C10_tables (generated widths and segment tables = manual's ORG table), C10_finding_org_under_phase (proved negation for the pinned CodeORG_Core).",
+    note=TB + "Side conditions of C10_refine_partial are explicit (Pre): counters within +-2^62 and non-negative where addresses are occupied, operands within the C widths, ALIGN without fill byte, ORG only while the phase offset is 0 unless the tree has the repaired CodeORG_Core (flag Cfg.orgLoad, self-calibrated by a probe; likewise Cfg.alignZeroErr). NOT proved, only differentially tested against the real assembler (about 1500 programs / 40k statements per quick run, 0 disagreements) and checked by the executable spec: nested and nameless structures, structures inside unions, ALIGN with fill, statements after the first error, the records of the code file (via the C04 record machine). Outside the model: label post-processing by the TI data pseudo-ops inside structure bodies, targets with their own ChkPC (e.g. PIC16C8x), 32-bit counter effects of CodeALIGN beyond 2^31 (not reachable inside a 64K segment). The spec is my reading of doc/pseudo-instructions.md; where the manual is silent the spec says 'unspecified' and the check stops judging.",
+    ref='4.10',
+)
+
 NOT_YET = "not claimed yet in this round: model/theorems/correspondence under construction (see DESIGN.md section 8 build order)"
 
 
